@@ -24,6 +24,18 @@ CLAIMED = {
             "Exploration: ~10^5 writer runs per quick run over 4 writer configurations (text, pretty, binary growing table, binary fixed table), 0-3 shared tables, 1-3 Finish-separated batches; the independent decoder checks IVM first, exact lengths and nesting, every SID <= max_id of the table in force, and value equality.",
             "Trusts the harness's decoders (no code shared with ion-go). Conditional on all writer calls returning nil.",
             "DESIGN.md section 5, C04"),
+    "C08": (PBT + "; reference cursor over the value tree as oracle (metamorphic: any navigation program vs a plain full traversal of the same bytes, which must itself equal the generated model); exhaustive enumeration of short programs",
+            "Exploration with an exhaustive sub-grid: every program up to length 6 (7 in thorough) over {Next, StepIn, StepOut, full read} on ~30 small documents with skip-hostile content in both formats (~330 000 runs) plus 80 000 generated (document, program) pairs per quick run: documents from the C02 text printer / C03 binary encoder with random spelling, programs of 1-40 steps including StepIn on scalars and nulls, StepOut at top level, wrong-type accessors and re-queries, then a plain traversal of everything left; every Next result, Type, IsNull, Annotations, FieldName, IsInStruct and value read is compared with the cursor's prediction.",
+            "Next after the end of a container and StepIn with no current value are not issued (the property does not list them as refusals). A panic during navigation ends the case and is counted as discarded (C06's subject). A document whose plain traversal disagrees with the model is discarded (C02/C03's subject). Trusts the harness cursor, printer and encoder.",
+            "DESIGN.md section 5, C08; section 10.1"),
+    "C09": (PBT + "; independent model of the symbol-ID space (system slots, import slots with padding / truncation, locals) as reference; rapid state machine over SymbolTableBuilder with snapshot invariants",
+            "Exploration with an exhaustive small grid: ~17 000 enumerated import/local configurations plus ~40 000 generated ones per quick run (0-4 imports with declared max_id below / equal / above the table size, catalog hit exact / other version / missing, duplicate and shadowing text), each table built three ways (API, text declaration, binary declaration) and compared with the model for every ID in 0..MaxID+2 and every alphabet text; builder state machine (Add / Build / lookups, all earlier snapshots re-checked each step); catalogs from arbitrary multisets and Adjust to every max_id.",
+            "The empty text is exempt from the by-name / lowest-ID assertions because ion-go deliberately does not index it (by-ID results for it are still checked). Trusts the harness's ID-space model, rapid, Go.",
+            "DESIGN.md section 5, C09; section 9.3"),
+    "C12": (PBT + "; reference writer-protocol automaton + independent strict decoders as oracle; exhaustive enumeration of short call sequences",
+            "Exploration with an exhaustive sub-grid: every call sequence up to length 5 (6 in thorough) over a 9-call alphabet x 4 writer configurations (~265 000) plus 32 000 generated sequences of 1-40 calls over the whole Writer interface with per-case legality bias (75 / 93 / 100 %); checks no panic, error stickiness, Finish refused inside a container, determinism, and for nil-finished sequences that the stream decodes (independent decoder) to exactly the values of the succeeded calls.",
+            "Sequences that abandon a pending field name or annotation (End*/Finish straight after FieldName/Annotation) have undocumented semantics: they are checked for panic / stickiness / determinism but not for stream content, and are counted under discarded.ambiguous_sequence. Trusts the harness automaton and decoders.",
+            "DESIGN.md section 5, C12; section 10.2"),
     "C13": (PBT + "; exhaustive integer-boundary, accessor-matrix and magnitude grids against a big-integer reference model and the independent binary decoder",
             "Exploration with exhaustive sub-grids: every +-(2^k+d) boundary x 12 presentations, all 16-bit values, the full 11 accessors x 13 types x null x format matrix, float pools and random bit patterns, payload lengths to 2^21, decimal exponents to +-(2^31-1), symbol IDs to 2^62.",
             "IntSize is checked one-directionally as the property states. Symbol IDs above 2^20 are checked on the emitted bytes and via ion-go's reader with a catalog.",
